@@ -167,6 +167,27 @@ def exec_nesting():
              'println("{{a}");', 'println("{a}}");', 'println("{a:b}{a:X}{a:x}");', 'println("{a +}");', 'println("%s", "{a}");', 'println("{z[9]}");']
     for i, f in enumerate(forms):
         out.append(("exec-print-form-%d" % i, prog("    %s\n" % f)))
+    # every kind of run-time error a pointer-free program can raise: the DIAGNOSTIC path itself (message formatting, unwinding
+    # out of nested constructs, cleanup) must not crash; the run ends by itself with an error status
+    EP = ("struct S { int v; tiny t; string n; int[3] arr; };\nenum E { A, B(int), C(string) };\n"
+          "int dz(int a, int b) { return a / b; }\nint deep(int k) { int[3] q = [1, 2, 3]; if (k == 0) { return q[5]; } return deep(k - 1) + 1; }\n")
+
+    def ep(body):
+        return EP + "int main() {\n    int a = 1;\n    int zero = 0;\n    int[4] z = [0, 1, 2, 3];\n    int[2][3] m = [[1, 2, 3], [4, 5, 6]];\n    string word = \"hello\";\n    string empty = \"\";\n    S s;\n    s.v = 1;\n%s    println(\"not reached?\");\n    return 0;\n}\n" % body
+    errs = ['word[7] = \'!\';', 'word[0 - 1] = \'x\';', 'empty[0] = \'x\';', 'empty[3] = \'x\';', 'char c = word[9]; println(c);', 'char c = word[0 - 2]; println(c);',
+            'word[100000] = \'x\';', 'string t = "日本語"; t[5] = \'x\';', 'string t = "日本語"; char c = t[7]; println(c);', 's.n = "ab"; s.n[4] = \'q\';',
+            'z[4] = 1;', 'z[0 - 1] = 1;', 'println(z[4]);', 'println(z[a + 99999]);', 'm[2][0] = 1;', 'm[0][3] = 1;', 'println(m[1][0 - 1]);', 's.arr[3] = 1;', 'println(s.arr[0 - 1]);',
+            'println(a / zero);', 'println(a % zero);', 'a /= zero;', 'a %= zero;', 'println(dz(5, zero));', 'long q = 5; println(q / zero);', 'double d = 1.5; println(d / zero);',
+            'tiny t = 127; t++;', 'tiny t = 100; t = t + 100;', 's.t = 300;', 'short h = 40000;', 'int big_ = 2147483647; big_ += 1;', 'unsigned tiny u = 300;',
+            'const int k = 1; k = 2;', 'const int[2] ck = [1, 2]; ck[0] = 5;', 'println(undefined_name);', 'undefined_fn(1);', 'dz(1);', 'dz(1, 2, 3);',
+            'println(deep(30));', 'E e = E::B(5); match (e) { A => { println(1); } }', 'E e = E::C("x"); match (e) { B(v) => { println(v); } }',
+            'for (int i = 0; i < 10; i++) { for (int j = 0; j < 10; j++) { if (i * j == 42) { println(z[i]); } } }',
+            'while (a < 5) { a = a + 1; { { int w = z[a + 2]; println(w); } } }', 'int i = 0; while (true) { word[i] = \'y\'; i = i + 1; }',
+            'string big2 = "a"; for (int i = 0; i < 12; i++) { big2 = big2 + big2; } big2[5000] = \'x\';',
+            'println("{z[9]}");', 'println("{a / zero}");', 'println("{word[9]}");', 'string r = "{m[5][5]}"; println(r);',
+            'Option<int> o = Option<int>::None; match (o) { Some(v) => { println(v); } }', 'int x = z[z[3] + z[3]];', 'z[z[3] * 2] = z[9];']
+    for i, f in enumerate(errs):
+        out.append(("exec-error-path-%d" % i, ep("    %s\n" % f)))
     return [(k, p) for k, p in out if len(p.encode("utf-8")) <= 8192]
 
 
@@ -254,7 +275,7 @@ def main(a):
                 problems.append("parse loop did not consume input between iterations %s -> %s (hypothesis of CbProps.C10.progress_terminates)" % where)
         if not problems:
             return
-        cell = kind.rsplit("-", 1)[0] if kind.startswith(("deep-", "long-", "wide-", "double-", "exec-print-form")) else kind
+        cell = kind.rsplit("-", 1)[0] if kind.startswith(("deep-", "long-", "wide-", "double-", "exec-print-form", "exec-error-path")) else kind
         sig = (cell, problems[0].split(":")[0])
         if os.environ.get("CB_VERIF_CENSUS"):
             census.setdefault(sig, []).append("%s: %s | %s" % (name, "; ".join(problems), (o[2] or "")[-160:].replace("\n", " ")))
